@@ -1027,4 +1027,153 @@ theorem ofInts_inv (zs : List Int) : Inv (ofInts zs) := by
   · simp only [St.size, St.alloc, ofInts]; rw [DivZ.siz_natAbs]; exact Nat.le_max_left _ _
   · rw [ofInts_value zs i hi]; rfl
 
+/-! ### mpz_divexact -/
+
+theorem mpn_divexact_ok {s : St} {qp np nl dp dl : Nat} {Nl Dl bq : List Nat}
+    (hN : s.load np nl = .ok Nl) (hD : s.load dp dl = .ok Dl)
+    (hbq : s.blk qp = some bq) (h2 : qp ≠ dp)
+    (hdl : 1 ≤ dl) (hle : dl ≤ nl) (htop : Dl.getD (dl - 1) 0 ≠ 0)
+    (haq : nl - dl + 1 ≤ bq.length) :
+    mpn_divexact qp np nl dp dl s =
+      .ok (s.setBlk qp (some (toLimbs (nl - dl + 1) (val Nl / val Dl) ++ bq.drop (nl - dl + 1)))) := by
+  unfold mpn_divexact
+  have hs : ¬ ¬ (1 ≤ dl ∧ dl ≤ nl) := by tauto
+  simp only [bind, Except.bind, h2, if_false, hN, hD, hs, htop, pure, Except.pure]
+  unfold St.store; rw [hbq]; simp only [toLimbs_length]; rw [if_pos haq]
+
+theorem divexact_ok {s : St} (h : Inv s) {q n d : Nat} (hq : q < s.nv) (hn : n < s.nv)
+    (hd : d < s.nv) (hd0 : s.value d ≠ 0) :
+    ∃ s', divexact q n d s = .ok s' ∧ Res s s' q (DivZ.tdivQ (s.value n) (s.value d)) := by
+  have hds : s.size d ≠ 0 := fun e => hd0 ((h.size_eq_zero_iff hd).mp e)
+  unfold divexact divexactV
+  simp only [Variant.c, if_true, bind, Except.bind, pure, Except.pure, Bool.not_true, Bool.false_eq_true, true_and, and_true, and_false, if_false]
+  obtain ⟨i1, nv1, size1, val1, a1, ag1⟩ := realloc_spec h hq (((s.size n).natAbs : Int) - ((s.size d).natAbs : Int) + 1).toNat
+  set s1 := s.mpzRealloc q (((s.size n).natAbs : Int) - ((s.size d).natAbs : Int) + 1).toNat with hs1
+  have hq1 : q < s1.nv := by rw [nv1]; exact hq
+  have hn1 : n < s1.nv := by rw [nv1]; exact hn
+  have hd1 : d < s1.nv := by rw [nv1]; exact hd
+  by_cases hlt : (s.size n).natAbs < (s.size d).natAbs
+  · rw [if_pos hlt]
+    obtain ⟨tq, _⟩ := DivZ.tdiv_tmod_of_natAbs_lt (mag_lt_of_size_lt h hn hd hds hlt)
+    obtain ⟨i2, u2, vq2⟩ := setSize_zero_spec i1 hq1
+    exact ⟨_, rfl, i2, by rw [u2.nv, nv1], by rw [vq2]; exact tq.symm,
+      fun i hi hiq => by rw [u2.value_o i1 hq1 (by rw [nv1]; exact hi) hiq, val1 i hi]⟩
+  · rw [if_neg hlt, if_neg (by omega)]
+    have hle : (s.size d).natAbs ≤ (s.size n).natAbs := by omega
+    have hqlN : (((s.size n).natAbs : Int) - ((s.size d).natAbs : Int) + 1).toNat = (s.size n).natAbs - (s.size d).natAbs + 1 := by omega
+    rw [hqlN] at a1 ⊢
+    set ql := (s.size n).natAbs - (s.size d).natAbs + 1 with hqldef
+    have mag1 : ∀ i, i < s.nv → s1.mag i = s.mag i := fun i hi => by
+      rw [← value_natAbs, ← value_natAbs, val1 i hi]
+    have hld := i1.load_var hd1; rw [size1] at hld
+    have hln := i1.load_var hn1; rw [size1] at hln
+    have hsn0 : s1.size n ≠ 0 := by rw [size1]; omega
+    have hsd0 : s1.size d ≠ 0 := by rw [size1]; exact hds
+    have hNge := i1.mag_ge hn1 hsn0; rw [size1] at hNge
+    have hDge := i1.mag_ge hd1 hsd0; rw [size1] at hDge
+    have hLN := (i1.limbs_spec hn1).2
+    have hLD := (i1.limbs_spec hd1).2
+    have hN2 := i1.mag_lt hn1; rw [size1] at hN2
+    have hD2 := i1.mag_lt hd1; rw [size1] at hD2
+    have hDlen := (i1.limbs_spec hd1).1; rw [size1] at hDlen
+    have htop : (s1.limbs d).getD ((s.size d).natAbs - 1) 0 ≠ 0 := by
+      have := i1.top_ne_zero hd1 hsd0; rwa [size1] at this
+    obtain ⟨hQlt, _⟩ := quot_size hNge hN2 hDge hD2 (by omega) hle
+    set Q := s1.mag n / s1.mag d with hQ
+    have hQsz : sizeNat Q ≤ ql := (DivZ.sizeNat_le_iff _ _).mpr hQlt
+    have hQval : (if sameSign (s.size n) (s.size d) then ((Q : Nat) : Int) else -((Q : Nat) : Int)) = DivZ.tdivQ (s.value n) (s.value d) := by
+      rw [hQ, mag1 n hn, mag1 d hd]; exact tdivQ_eq h hn hd
+    obtain ⟨bq, hbq, hbql, hbqL⟩ := i1.live q hq1
+    by_cases hc : q = n ∨ q = d
+    · -- quotient in TMP space, copied back
+      have hc' : decide (q = n ∨ q = d) = true := by simpa using hc
+      simp only [hc', if_true, decide_true]
+      have i2 : Inv (s1.tmpAlloc ql).2 := malloc_inv i1 _
+      have x12 : Ext s1 (s1.tmpAlloc ql).2 := malloc_ext i1 _
+      have hqpb : (s1.tmpAlloc ql).2.blk s1.next = some (List.replicate ql junk) := malloc_blk_new s1 _
+      have hqp : (s1.tmpAlloc ql).1 = s1.next := rfl
+      rw [hqp]
+      set s2 := (s1.tmpAlloc ql).2 with hs2
+      have hne : ∀ i, i < s.nv → s2.ptr i ≠ s1.next := fun i hi => by
+        rw [x12.ptr]; exact Nat.ne_of_lt (i1.lt i (by rw [nv1]; exact hi))
+      have hmpn : mpn_divexact s1.next (s1.ptr n) (s.size n).natAbs (s1.ptr d) (s.size d).natAbs s2 =
+          .ok (s2.setBlk s1.next (some (toLimbs ql Q ++ (List.replicate ql junk).drop ql))) :=
+        mpn_divexact_ok (x12.load hln) (x12.load hld) hqpb (by rw [← x12.ptr d]; exact Ne.symm (hne d hd)) (by omega) hle htop
+          (by simp only [List.length_replicate]; omega)
+      rw [x12.ptr n, x12.ptr d]
+      rw [hmpn]; simp only []
+      rw [List.drop_of_length_le (by simp), List.append_nil]
+      obtain ⟨iY, vY⟩ := setBlk_nonvar i2 (p := s1.next) (fun i hi => hne i (by rw [x12.nv, nv1] at hi; exact hi))
+        (by show s1.next < s1.next + 1; omega) (toLimbs ql Q)
+      set Y := s2.setBlk s1.next (some (toLimbs ql Q)) with hY
+      have hYb : Y.blk s1.next = some (toLimbs ql Q ++ []) := by simp [hY, St.setBlk]
+      rw [normSize_of_blk hYb, Nat.mod_eq_of_lt hQlt]; simp only []
+      have hsz : ∀ i, Y.size i = s.size i := fun i => by
+        show s2.size i = s.size i; rw [x12.size, size1]
+      rw [hsz n, hsz d]
+      have hqY : q < Y.nv := by show q < s2.nv; rw [x12.nv]; exact hq1
+      have hne' : s1.next ≠ (Y.setSize q (if sameSign (s.size n) (s.size d) then (sizeNat Q : Int) else -(sizeNat Q : Int))).ptr q := by
+        have : (Y.setSize q (if sameSign (s.size n) (s.size d) then (sizeNat Q : Int) else -(sizeNat Q : Int))).ptr q = s2.ptr q := by
+          simp [St.setSize, St.setVar, St.ptr, hY, St.setBlk]
+        rw [this]; exact Ne.symm (hne q hq)
+      rw [if_pos hne']
+      have hload : (Y.setSize q (if sameSign (s.size n) (s.size d) then (sizeNat Q : Int) else -(sizeNat Q : Int))).load s1.next (sizeNat Q)
+          = .ok (toLimbs (sizeNat Q) Q) := by
+        have : (Y.setSize q (if sameSign (s.size n) (s.size d) then (sizeNat Q : Int) else -(sizeNat Q : Int))).blk s1.next = some (toLimbs ql Q) := by
+          simp [St.setSize, St.setVar, hY, St.setBlk]
+        unfold St.load; rw [this]; simp only [toLimbs_length]
+        rw [if_pos hQsz, toLimbs_take _ _ _ hQsz]
+      rw [hload]; simp only []
+      -- the final store into quot
+      have hYq : Y.blk (Y.ptr q) = some bq := by
+        show Y.blk (s2.ptr q) = some bq
+        rw [hY]; simp only [St.setBlk]; rw [if_neg (hne q hq), x12.ptr, x12.blk _ (by rw [hbq]; simp), hbq]
+      have p1 := put_upd iY hqY (toLimbs (sizeNat Q) Q ++ bq.drop (sizeNat Q)) Q (!decide (sameSign (s.size n) (s.size d)))
+        (by rw [length_wr' (by omega)]; show bq.length = s2.alloc q; rw [x12.alloc]; exact hbql)
+        (Limbs_wr' (Limbs_toLimbs _ _) hbqL) (by show sizeNat Q ≤ s2.alloc q; rw [x12.alloc]; omega)
+        (val_take_wr _ (Nat.le_refl _))
+      rw [ite_neg_bool] at p1
+      have hstore : (Y.setSize q (if sameSign (s.size n) (s.size d) then (sizeNat Q : Int) else -(sizeNat Q : Int))).store
+            ((Y.setSize q (if sameSign (s.size n) (s.size d) then (sizeNat Q : Int) else -(sizeNat Q : Int))).ptr q) (toLimbs (sizeNat Q) Q)
+          = .ok (Y.put q (toLimbs (sizeNat Q) Q ++ bq.drop (sizeNat Q)) (if sameSign (s.size n) (s.size d) then (sizeNat Q : Int) else -(sizeNat Q : Int))) := by
+        have e1 : (Y.setSize q (if sameSign (s.size n) (s.size d) then (sizeNat Q : Int) else -(sizeNat Q : Int))).ptr q = Y.ptr q := by
+          simp [St.setSize, St.setVar, St.ptr]
+        have e2 : (Y.setSize q (if sameSign (s.size n) (s.size d) then (sizeNat Q : Int) else -(sizeNat Q : Int))).blk (Y.ptr q) = some bq := hYq
+        rw [e1]; unfold St.store; rw [e2]; simp only [toLimbs_length]
+        rw [if_pos (by omega)]; rfl
+      rw [hstore]; simp only []
+      set Z := Y.put q (toLimbs (sizeNat Q) Q ++ bq.drop (sizeNat Q)) (if sameSign (s.size n) (s.size d) then (sizeNat Q : Int) else -(sizeNat Q : Int)) with hZ
+      obtain ⟨i4, n4, _, v4⟩ := free_inv p1.1 s1.next (fun i hi => by
+        rw [p1.2.1.nv] at hi; rw [p1.2.1.ptr]; exact hne i (by rw [show Y.nv = s2.nv from rfl, x12.nv, nv1] at hi; exact hi))
+      have nvZ : Z.nv = s.nv := by rw [p1.2.1.nv]; show s2.nv = s.nv; rw [x12.nv, nv1]
+      refine ⟨_, rfl, i4, by rw [n4, nvZ], ?_, fun i hi hiq => ?_⟩
+      · rw [v4 q (by rw [nvZ]; exact hq), p1.2.2, ite_neg_bool]; exact hQval
+      · rw [v4 i (by rw [nvZ]; exact hi), p1.2.1.value_o iY hqY (by show i < s2.nv; rw [x12.nv, nv1]; exact hi) hiq,
+          vY i (by rw [x12.nv, nv1]; exact hi), x12.value i1 (by rw [nv1]; exact hi), val1 i hi]
+    · -- quotient written in place
+      have hc' : decide (q = n ∨ q = d) = false := by simpa using hc
+      simp only [hc', Bool.false_eq_true, if_false, decide_false]
+      have hqd : s1.ptr q ≠ s1.ptr d := fun e => hc (Or.inr (i1.inj q d hq1 hd1 e))
+      have hmpn : mpn_divexact (s1.ptr q) (s1.ptr n) (s.size n).natAbs (s1.ptr d) (s.size d).natAbs s1 =
+          .ok (s1.setBlk (s1.ptr q) (some (toLimbs ql Q ++ bq.drop ql))) :=
+        mpn_divexact_ok hln hld hbq hqd (by omega) hle htop (by omega)
+      rw [hmpn]; simp only []
+      set Y := s1.setBlk (s1.ptr q) (some (toLimbs ql Q ++ bq.drop ql)) with hY
+      have hYb : Y.blk (s1.ptr q) = some (toLimbs ql Q ++ bq.drop ql) := by simp [hY, St.setBlk]
+      rw [normSize_of_blk hYb, Nat.mod_eq_of_lt hQlt]; simp only []
+      have hsz : ∀ i, Y.size i = s.size i := fun i => by show s1.size i = s.size i; rw [size1]
+      rw [hsz n, hsz d]
+      have hp : (Y.setSize q (if sameSign (s.size n) (s.size d) then (sizeNat Q : Int) else -(sizeNat Q : Int))).ptr q = s1.ptr q := by
+        simp [St.setSize, St.setVar, St.ptr, hY, St.setBlk]
+      rw [if_neg (by rw [hp]; simp)]
+      have p1 := put_upd i1 hq1 (toLimbs ql Q ++ bq.drop ql) Q (!decide (sameSign (s.size n) (s.size d)))
+        (by rw [length_wr' (by omega)]; exact hbql) (Limbs_wr' (Limbs_toLimbs _ _) hbqL) (by omega)
+        (val_take_wr _ hQsz)
+      rw [ite_neg_bool] at p1
+      refine ⟨_, rfl, p1.1, by show (s1.put q _ _).nv = _; rw [p1.2.1.nv, nv1], ?_, fun i hi hiq => ?_⟩
+      · show (s1.put q _ _).value q = _
+        rw [p1.2.2, ite_neg_bool]; exact hQval
+      · show (s1.put q _ _).value i = _
+        rw [p1.2.1.value_o i1 hq1 (by rw [nv1]; exact hi) hiq, val1 i hi]
+
 end Mpir.AliasMem
